@@ -553,7 +553,8 @@ Proof.
     apply read_values_spec in E1 as [-> [Hv|Hv]]; try discriminate Hv; try (apply W; reflexivity).
   inversion Hv; subst v; clear Hv. cbn beta zeta in E2.
   destruct (negb (valid _ _ (values E))).
-  { apply W. eapply (pres_respond E uc); eauto. }
+  { apply W. revert E2. generalize h r h'.
+    change (pres uc (log [] ;;; respond E (bs "register") [(bs "errors", DOther); (bs "preserve", DOther)])). pres_go. }
   destruct (72 <? length (aget f_password (values E)))%nat.
   { apply W. exact (pres_backend uc _ KHash _ (pres_fail uc _) _ _ _ E2). }
   apply bind_inv in E2 as [(pass & h2 & E1 & E2)|[(e & E1 & ->)|(E1 & ->)]];
